@@ -1162,17 +1162,22 @@ func (r *multiCIDRRangeAllocator) createClusterCIDR(ctx context.Context, cluster
 		return fmt.Errorf("unable to get labelSelector key: %w", err)
 	}
 
-	clusterCIDRSet, err := r.createClusterCIDRSet(clusterCIDR, terminating)
-	if err != nil {
-		return fmt.Errorf("invalid ClusterCIDR: %w", err)
-	}
+	// The ClusterCIDR is already mapped when an earlier attempt mapped it and
+	// then failed to persist the finalizer. Mapping it again would create a
+	// second set of pools for the same ranges.
+	if !r.isClusterCIDRMapped(nodeSelector, clusterCIDR.Name) {
+		clusterCIDRSet, err := r.createClusterCIDRSet(clusterCIDR, terminating)
+		if err != nil {
+			return fmt.Errorf("invalid ClusterCIDR: %w", err)
+		}
 
-	if clusterCIDRSet.IPv4CIDRSet == nil && clusterCIDRSet.IPv6CIDRSet == nil {
-		return errors.New("invalid ClusterCIDR: must provide IPv4 and/or IPv6 config")
-	}
+		if clusterCIDRSet.IPv4CIDRSet == nil && clusterCIDRSet.IPv6CIDRSet == nil {
+			return errors.New("invalid ClusterCIDR: must provide IPv4 and/or IPv6 config")
+		}
 
-	if err := r.mapClusterCIDRSet(r.cidrMap, nodeSelector, clusterCIDRSet); err != nil {
-		return fmt.Errorf("unable to map clusterCIDRSet: %w", err)
+		if err := r.mapClusterCIDRSet(r.cidrMap, nodeSelector, clusterCIDRSet); err != nil {
+			return fmt.Errorf("unable to map clusterCIDRSet: %w", err)
+		}
 	}
 
 	// Make a copy so we don't mutate the shared informer cache.
@@ -1230,6 +1235,17 @@ func (r *multiCIDRRangeAllocator) createClusterCIDRSet(clusterCIDR *v1.ClusterCI
 	}
 
 	return clusterCIDRSet, nil
+}
+
+// isClusterCIDRMapped returns true if a ClusterCIDR with the given name is
+// already mapped to the provided labelSelector in the cidrMap.
+func (r *multiCIDRRangeAllocator) isClusterCIDRMapped(nodeSelector, name string) bool {
+	for _, clusterCIDRSet := range r.cidrMap[nodeSelector] {
+		if clusterCIDRSet.Name == name {
+			return true
+		}
+	}
+	return false
 }
 
 // mapClusterCIDRSet maps the ClusterCIDRSet to the provided labelSelector in the cidrMap.
